@@ -286,6 +286,7 @@ func checkC36(c *Ctx) string {
 	for f := range mm {
 		mmNames = append(mmNames, f.Name())
 	}
+	checkObjectListAndCounter(c, "C36.5 K5 list growth is followed by migrate", "C36.6 K5 copy-on-write ends with a fresh copy counter")
 	return fmt.Sprintf("Static clause of 'read-only objects reject every mutation': mustBeMutable panics on the readonly edge and returns only on the other; every store into SuObject.list (element, slice, append, copy, sort), "+
 		"SuObject.named (assignment or mutating method of the map type, found by effect) or SuObject.defval in package core is preceded on every path by a call, on the same object (root variable + field path; a record stands for r.ob), of a method that "+
 		"establishes mutability on all its paths (%d found by fixed point: %s); unexported functions may instead rely on their callers, which is checked at each call site transitively; objects allocated in the function (literal, new, "+
